@@ -121,6 +121,16 @@ fn norm_any(v: &PlutusData) -> PlutusData {
     }
 }
 
+/// the property's quantifier: every constructor tag is one `constr_index` accepts
+fn valid_tags(v: &PlutusData) -> bool {
+    match v {
+        PlutusData::Constr(c) => (matches!(c.tag, 121..=127 | 1280..=1400) || (c.tag == 102 && c.any_constructor.is_some())) && c.fields.iter().all(valid_tags),
+        PlutusData::Map(m) => m.iter().all(|(k, v)| valid_tags(k) && valid_tags(v)),
+        PlutusData::Array(a) => a.iter().all(valid_tags),
+        _ => true,
+    }
+}
+
 /// minimal CBOR walker used only to check the chunking rule on produced encodings.
 /// returns Err(description) on the first byte string that breaks the rule.
 fn scan_chunks(bs: &[u8], pos: &mut usize) -> Result<(), String> {
@@ -372,6 +382,23 @@ fn has_tag102(bs: &[u8]) -> bool {
 }
 
 pub fn generate(g: &mut Gen) {
+    // outside the property's quantifier (constr_index panics): compared with the model only
+    for i in 0..(g.cases / 50).max(4) {
+        let mut r = g.rng.fork();
+        let bad = |r: &mut Rng| {
+            let (tag, any) = match r.below(6) { 0 => (102, None), 1 => (*r.pick(&[0u64, 2, 3, 5, 101, 103, 120, 128, 1279, 1401, u64::MAX]), None), 2 => (r.u64_edgy(), Some(1)), 3 => (2, None), _ => (r.below(2000), None) };
+            let n = r.below(3) as usize;
+            PlutusData::Constr(Constr { tag, any_constructor: any, fields: MaybeIndefArray::Def((0..n).map(|_| gen_value(r, 0)).collect()) })
+        };
+        let a = bad(&mut r);
+        let b = if i % 2 == 0 { gen_value(&mut r, 2) } else { PlutusData::Array(MaybeIndefArray::Indef(vec![gen_value(&mut r, 1), bad(&mut r)])) };
+        let c = PlutusData::Array(MaybeIndefArray::Def(vec![gen_value(&mut r, 0), a.clone()]));
+        let vals = [a, b, c];
+        let mut ops = vec![];
+        for x in &vals { for y in &vals { ops.push(format!("cmp {} {}", show_s(x), show_s(y))); } }
+        for x in &vals { ops.push(format!("rt {}", show_s(x))); }
+        g.case(ops);
+    }
     for _ in 0..g.cases {
         let mut r = g.rng.fork();
         let depth = match r.below(10) { 0..=2 => 0, 3..=5 => 1, 6 | 7 => 2, 8 => 3, _ => 4 };
@@ -413,8 +440,14 @@ pub fn run_case(case: &Case, out: &mut Out) {
             "cmp" => {
                 let mut pos = 1;
                 let (Some(a), Some(b)) = (parse(op, &mut pos), parse(op, &mut pos)) else { out.reply("bad-op".into()); continue; };
+                let inq = valid_tags(&a) && valid_tags(&b);
+                if !inq { out.cov("outside-quantifier"); }
                 match guard(|| a.cmp(&b)) {
-                    None => { out.panic(); out.cov("cmp-panic"); }
+                    None => {
+                        if inq { out.viol("cmp-panic", format!("{} | {}", show_s(&a), show_s(&b))); }
+                        out.panic(); out.cov("cmp-panic");
+                    }
+                    Some(o) if !inq => out.ok(ord_s(o)),
                     Some(o) => {
                         let (ta, tb) = (show_s(&a), show_s(&b));
                         // equality ignores definite/indefinite encodings (independent structural check)
@@ -435,6 +468,16 @@ pub fn run_case(case: &Case, out: &mut Out) {
                 let mut pos = 1;
                 let Some(a) = parse(op, &mut pos) else { out.reply("bad-op".into()); continue; };
                 let enc = minicbor::to_vec(&a).unwrap();
+                if !valid_tags(&a) {
+                    // outside the quantifier: only compared with the model
+                    out.cov("outside-quantifier");
+                    match guard(|| minicbor::decode::<PlutusData>(&enc)) {
+                        None => out.panic(),
+                        Some(Err(_)) => out.ok(format!("{} err", hex(&enc))),
+                        Some(Ok(b)) => out.ok(format!("{} {}", hex(&enc), show_s(&b))),
+                    }
+                    continue;
+                }
                 let mut p = 0;
                 if let Err(e) = scan_chunks(&enc, &mut p) { out.viol("chunking", format!("{} in encoding {} of {}", e, hex(&enc), show_s(&a))); }
                 else if p != enc.len() { out.viol("encoding-not-one-item", format!("{} of {}", hex(&enc), show_s(&a))); }
